@@ -389,3 +389,31 @@ register(
             "fn slice_cursor_length_guard(raw: &str) -> Result<usize> {"),
     suffix="  Ok(bytes.len())\n}",
 )
+
+# --------------------------------------------------------------------------
+# C04: the fold of the queued operations inside IndexWriter::commit (between the
+# declaration of `pending_new` and the construction of the new manifest): last add
+# per id wins, deletes remove, replaced / deleted live copies are tombstoned.
+# The three maps are the finite-map model of /verif/models (std HashMap / BTreeMap
+# are out of reach for CBMC); the statements are the repository's.
+# --------------------------------------------------------------------------
+register(
+    "commit_fold",
+    file="searchlite-core/src/api/writer.rs",
+    start=r"^\s*let mut pending_new: BTreeMap<String, Document> = BTreeMap::new\(\);",
+    end=r"^\s*let mut new_manifest = manifest_snapshot\.clone\(\);",
+    subst=[(r"\bself\.pending_ops\b", "pending_ops")],
+    prefix=("/// SLICE (regenerated from the current source on every run): the statements of\n"
+            "/// `IndexWriter::commit` that fold the queued operations into the set of new\n"
+            "/// documents and the tombstones of replaced / deleted live copies.\n"
+            "#[allow(unused_variables, unused_mut, unused_imports)]\n"
+            "fn slice_commit_fold(\n"
+            "  pending_ops: &[PendingOp],\n"
+            "  live_docs: &mut crate::verif_models::FoldMap<String, DocAddress>,\n"
+            ") -> (crate::verif_models::FoldMap<String, Document>, crate::verif_models::FoldMap<String, crate::verif_models::SmallSeq<DocId>>) {\n"
+            "  use crate::verif_models::FoldMap as HashMap;\n"
+            "  use crate::verif_models::FoldMap as BTreeMap;\n"
+            "  use crate::verif_models::SmallSeq as Vec;\n"
+            "  let mut live_docs = live_docs;"),
+    suffix="  (pending_new, tombstones)\n}",
+)
